@@ -10,6 +10,8 @@ earlier = sys.argv[2:]
 seeds, wt = f"/tmp/seeds{rnd}", f"/tmp/wt{rnd}"
 props = [json.loads(l) for l in open("/verif/properties.jsonl")]
 tmpl = open("/verif/tools/seedprompt.tmpl").read()
+# one-line descriptions of the round 3-5 changes whose files were lost with /tmp
+lost = json.load(open("/verif/tools/lost_mechanisms.json"))
 for p in props:
     pid = p["id"]
     os.makedirs(f"{seeds}/{pid}", exist_ok=True)
@@ -26,6 +28,8 @@ for p in props:
             s = str(j.get("summary", ""))[:330]
             n = str(j.get("needs_to_manifest", j.get("needs", "")))[:250]
             prev.append(f" - {s}  [needs: {n}]")
+    for cell in lost.get(pid, []):
+        prev.append(f" - {cell}")
     text = (tmpl.replace("@PID@", pid).replace("@RND@", rnd).replace("@TITLE@", p["title"])
             .replace("@STATEMENT@", p["statement"]).replace("@QUANT@", p["quantifier"]["text"])
             .replace("@EARLIER@", "\n".join(prev) if prev else " (none)"))
